@@ -99,6 +99,8 @@ func TestDumpRegress(t *testing.T) {
 	write("C07", "fixed-6c61470-mem-undef", mkShape(16, "MOV", []string{"r16", "mundef"}, 1), "an undefined symbol as the address of a memory operand went unreported (address 0)")
 	write("C07", "fixed-6c61470-mem-label", mkShape(16, "MOV", []string{"r16", "mlabel"}, 1), "a defined label as the address of a memory operand was assembled as 0")
 	write("C07", "fixed-mixed-width-address", mkShape(16, "MOV", []string{"r16", "badmem"}, 8), "MOV CX,[BX+EAX] was assembled as [EBX+EAX]")
+	write("C07", "fixed-1ed5c43-ret-operand", mkShape(16, "RET", []string{"imm"}, 0), "RET 5 was assembled as a plain RET with only a warning")
+	write("C07", "fixed-1ed5c43-ret-reg", mkShape(16, "RET", []string{"r16"}, 1), "RET CX was assembled as a plain RET with only a warning")
 	write("C07", "fixed-6eb0d51-hlt-5", mkShape(16, "HLT", []string{"imm"}, 0), "operands of a no-operand instruction ignored")
 	write("C07", "fixed-2d62a15-not-ds", mkShape(16, "NOT", []string{"sreg"}, 3), "sreg taken for r16")
 	write("C07", "fixed-2d62a15-add-ds-ax", mkShape(16, "ADD", []string{"sreg", "r16"}, 3), "sreg taken for r16")
